@@ -4,11 +4,10 @@
    original order, possibly behind the default dependency (only [Unit] After/Wants) and possibly followed by generator entries
    (only the listed (section, key) pairs of that unit type); the own section and [Quadlet] reappear verbatim as X-<name>;
    a managed [Service] setting the user chose is left exactly as written.
-   NOT covered by a theorem (decided by the direct oracle of tools/props/C07.py on implementation output): a non-empty user
-   WorkingDirectory in .kube/.build units and Type=oneshot in .kube units are never overwritten; [Service] NotifyAccess being
-   the only user entry a non-oneshot container may lose follows from C07_conversion_passes_through only in the form
-   "the managed keys are the only exempt ones". *)
-From QV Require Import Model.Base Generated.Tables Model.Quote Model.Unit Model.Parser Model.Names Model.Convert Model.Process Proofs.C07 Proofs.C07run.
+   The lists A_of / MANAGED / hidden live in Spec/Passthrough.v and are compared with the store sites of the Rust source on every
+   run (tools/props/C07.py, inventory).  "[Service] NotifyAccess is the only user entry a non-oneshot container may lose" appears
+   here in the form "the managed keys are the only exempt ones" (for a container: KillMode when absent, Type/NotifyAccess, SyslogIdentifier). *)
+From QV Require Import Model.Base Generated.Tables Model.Quote Model.Unit Model.Parser Model.Names Model.Convert Model.Process Spec.Passthrough Proofs.C07 Proofs.C07run Proofs.C07kept.
 
 (* add(sec,k,v): every (section, key) keeps its values in order; only (sec,k) gains one value, at the end *)
 Theorem C07_add_keeps_order : forall u sec k v sec' k',
@@ -98,6 +97,26 @@ Theorem C07_oneshot_type_kept : forall podman exists_path mount_nl u path t tbl 
   convert_one podman exists_path true mount_nl u path t tbl = COk (svc, p, tbl') ->
   vals svc SEC_S (s2l "Type") = vals u SEC_S (s2l "Type").
 Proof. exact oneshot_type_kept. Qed.
+
+(* Type=oneshot of a .kube unit: neither Type nor NotifyAccess gains anything *)
+Theorem C07_kube_oneshot_kept : forall podman u path tbl svc p tbl',
+  NoDup (map fst u) -> @lk berr u SEC_S (s2l "Type") = COk (Some (s2l "oneshot")) ->
+  from_kube podman true u path tbl = COk (svc, p, tbl') ->
+  vals svc SEC_S (s2l "Type") = vals u SEC_S (s2l "Type") /\ vals svc SEC_S (s2l "NotifyAccess") = vals u SEC_S (s2l "NotifyAccess").
+Proof. exact kube_oneshot_kept. Qed.
+
+(* a non-empty user WorkingDirectory is never added to (.kube, .build) *)
+Theorem C07_kube_workdir_kept : forall podman kill_fixed u path tbl svc p tbl' c0 w,
+  NoDup (map fst u) -> @lk berr u SEC_S (s2l "WorkingDirectory") = COk (Some (c0 :: w)) ->
+  from_kube podman kill_fixed u path tbl = COk (svc, p, tbl') ->
+  vals svc SEC_S (s2l "WorkingDirectory") = vals u SEC_S (s2l "WorkingDirectory").
+Proof. exact kube_workdir_kept. Qed.
+
+Theorem C07_build_workdir_kept : forall podman mount_nl u path tbl svc p tbl' c0 w,
+  NoDup (map fst u) -> @lk berr u SEC_S (s2l "WorkingDirectory") = COk (Some (c0 :: w)) ->
+  from_build podman mount_nl u path tbl = COk (svc, p, tbl') ->
+  vals svc SEC_S (s2l "WorkingDirectory") = vals u SEC_S (s2l "WorkingDirectory").
+Proof. exact build_workdir_kept. Qed.
 
 (* the tables the statements above mention, spelled out *)
 Theorem C07_tables :
